@@ -20,8 +20,8 @@ DESIGN_REF = "DESIGN.md §4 C07"
 EXPLORER = "E1 product-space with per-step refinement against a nondeterministic reference model"
 RULE = (
     "cases = {CUR, PCovCUR} x {sample, feature} x data (binary 3x3, slices of ternary 3x3 / binary 3x4, 4x3, generic "
-    "up to 8x6) x y catalogue x k in {1,2,3} (k < min shape) x mixing in {0,1/4,1/2,3/4,1} x recompute_every in {0,1,2,3} "
-    "x tolerance in {1e-12,1e-6} x n in {rank-1, rank}; non-trivial = at least two greedy steps were judged against "
+    "up to 8x6; one 1100-item set per kind and direction) x y catalogue x k in {1,2,3} (k < min shape) x mixing in {0,1/4,1/2,3/4,1} x recompute_every in {0,1,2,3} "
+    "x tolerance in {1e-12,1e-6,0 (generic data)} x n in {rank-1, rank}; non-trivial = at least two greedy steps were judged against "
     "the reference score; states = judged post-step states, transitions = selection steps"
 )
 ASSUMPTIONS = [
@@ -70,15 +70,26 @@ def bounds(tier, seed):
         k=[1, 2, 3],
         mixing=MIXINGS,
         recompute_every=[0, 1, 2, 3],
-        tolerance=[1e-12, 1e-6],
+        tolerance=[1e-12, 1e-6, 0.0],
         n_to_select="rank-1 and rank",
         gap_rule=GAPC,
         seed=seed,
     )
 
 
+def _big(spec):
+    """Many items along the selection axis (a blocked / chunked update shows only there): n x m, decaying column scales."""
+    n, m, sd = spec
+    rng = np.random.default_rng([int(sd), n, m, 777])
+    return np.round(rng.standard_normal((n, m)) * (0.6 ** np.arange(m)) * 256) / 256
+
+
 def groups(tier, seed):
     out = []
+    for kind in sel.CUR_KINDS:
+        for d in sel.DIRS:
+            for spec in ([[1100, 5, seed]] if tier == "quick" else [[1100, 5, seed], [2100, 4, seed], [1030, 6, seed + 1]]):
+                out.append(dict(kind=kind, dir=d, label="big%dx%d" % (spec[0], spec[1]), big=spec, tier=tier))
     for kind in sel.CUR_KINDS:
         for d in sel.DIRS:
             for label, X in _datas(tier, seed):
@@ -94,6 +105,14 @@ def _ys(n, tier):
 
 
 def cases(group):
+    if "big" in group:
+        n, m, _ = group["big"]
+        y = [float((i * 7 + 3) % 5 - 2) + 0.125 * (i % 3) for i in range(n if group["dir"] == "sample" else m)]
+        for k in (1, 2):
+            for re in (1, 2):
+                yield dict(kind=group["kind"], dir=group["dir"], big=group["big"], y=y if group["kind"] == "PCovCUR" else None, k=k,
+                           mixing=0.5 if group["kind"] == "PCovCUR" else None, re=re, tolerance=1e-12, n=4)
+        return
     kind, d, X, tier = group["kind"], group["dir"], group["X"], group["tier"]
     Xa = np.array(X, float)
     rank = int(np.linalg.matrix_rank(Xa))
@@ -116,7 +135,8 @@ def cases(group):
                 continue
             for mixing in mixes:
                 for re in (0, 1, 2, 3):
-                    for tolerance in ((1e-12,) if lite else (1e-12, 1e-6)):
+                    # tolerance=0 ("never treat anything as zero") only on generic data, where no selected block is rank deficient
+                    for tolerance in ((1e-12,) if lite else ((1e-12, 1e-6, 0.0) if group["label"].startswith("G") and "copy" not in group["label"] else (1e-12, 1e-6))):
                         for n in ns:
                             yield dict(kind=kind, dir=d, X=X, y=y, k=k, mixing=mixing, re=re, tolerance=tolerance, n=n)
                             if kind == "PCovCUR" and tolerance == 1e-12 and n == ns[-1] and not lite and all(float(v).is_integer() for v in y):
@@ -162,7 +182,10 @@ def _grey(X, idx, d, tolerance):
 def check(case):
     r = R()
     kind, d = case["kind"], case["dir"]
-    X = np.array(case["X"], float)
+    if "big" in case:
+        X = _big(case["big"]) if d == "sample" else _big(case["big"]).T.copy()
+    else:
+        X = np.array(case["X"], float)
     y = None if case["y"] is None else np.array(case["y"], float)
     k, mixing, re, tolerance, n = case["k"], case["mixing"], case["re"], case["tolerance"], case["n"]
     N = sel.n_items(X, d)
